@@ -48,13 +48,17 @@ def run_with_budget(fn, limit, *args, **kwargs):
         if _in_repo(code):
             state["n"] += 1
             if state["n"] > limit:
-                raise BudgetExceeded(state["n"], f"{code.co_filename.rsplit('/', 1)[-1]}:{code.co_name}:{line}")
+                where = f"{code.co_filename.rsplit('/', 1)[-1]}:{code.co_name}:{line}"
+                state.setdefault("tripped", where)
+                raise BudgetExceeded(state["n"], where)
 
     def on_jump(code, src, dst):
         if _in_repo(code):
             state["n"] += 1
             if state["n"] > limit:
-                raise BudgetExceeded(state["n"], f"{code.co_filename.rsplit('/', 1)[-1]}:{code.co_name}")
+                where = f"{code.co_filename.rsplit('/', 1)[-1]}:{code.co_name}"
+                state.setdefault("tripped", where)
+                raise BudgetExceeded(state["n"], where)
 
     mon.use_tool_id(TOOL, "vt-budget")
     try:
@@ -65,6 +69,10 @@ def run_with_budget(fn, limit, *args, **kwargs):
             result = fn(*args, **kwargs)
         finally:
             mon.set_events(TOOL, 0)
+        if "tripped" in state:
+            # the exception was raised inside the monitored code but swallowed on the way (an asyncio task stores even
+            # BaseExceptions): the verdict stands
+            raise BudgetExceeded(state["n"], state["tripped"])
         return result, state["n"]
     finally:
         mon.register_callback(TOOL, mon.events.LINE, None)
